@@ -177,3 +177,76 @@ func malformedClass(h string) string {
 	}
 	return "other"
 }
+
+// ---- Cache-Control argument forms (round 7: a lone double quote as the max-age argument) ----
+
+func init() { vrun.Register("headers/cache-control", scenarioCacheControl) }
+
+type ccParams struct {
+	MaxLen int `json:"max_len"`
+}
+
+// evalCC runs everything the proxy does with a Cache-Control value (parse, storability, lifetime) under recover.
+func evalCC(v string) (store bool, panicked string) {
+	defer func() {
+		if r := recover(); r != nil {
+			panicked = fmt.Sprint(r)
+		}
+	}()
+	hd := ParseHeaderDirective(http.Header{"Cache-Control": []string{v}})
+	store = hd.ShouldCache(false)
+	hd.ShouldCache(true)
+	hd.GetExpiresOrDefault(false, 3600e9)
+	hd.GetExpiresOrDefault(true, 3600e9)
+	return store, ""
+}
+
+// scenarioCacheControl: every string over sigma up to max_len as the tail of each prefix. Oracles: no value makes
+// the parser panic (C16); a value that opens with the directive no-store is never storable, whatever follows (C04:
+// what could be understood of a malformed field still applies).
+func scenarioCacheControl(c *vrun.Ctx) {
+	var p ccParams
+	c.Params(&p)
+	prefixes := []string{"max-age=", "no-store, max-age=", "max-age", "Max-Age =", "s-maxage=", "no-cache=", "private=", ""}
+	sigma := []byte{'"', '5', '0', 'x', ',', '=', ' ', '-'}
+	i := 0
+	var rec func(cur []byte)
+	rec = func(cur []byte) {
+		for _, pre := range prefixes {
+			i++
+			if !c.Mine(i) || c.Stop {
+				continue
+			}
+			v := pre + string(cur)
+			c.Case()
+			store, pan := evalCC(v)
+			switch {
+			case pan != "":
+				c.SetCase(fmt.Sprintf("Cache-Control: %q", v))
+				cls := "other"
+				if strings.Contains(pan, "slice bounds") {
+					cls = "slice-bounds"
+				} else if strings.Contains(pan, "index out of range") {
+					cls = "index-out-of-range"
+				}
+				c.Violation("C16/cache-control-parser/panic/"+cls, fmt.Sprintf("Cache-Control value %q makes the parser panic: %s", v, pan), nil)
+				c.Outcome("panic")
+			case strings.HasPrefix(pre, "no-store,") && store:
+				c.SetCase(fmt.Sprintf("Cache-Control: %q", v))
+				c.Violation("C04/cache-control-parser/no-store-lost", fmt.Sprintf("Cache-Control value %q opens with no-store and is judged storable", v), nil)
+				c.Outcome("no-store-lost")
+			case store:
+				c.Outcome("storable")
+			default:
+				c.Outcome("not-storable")
+			}
+		}
+		if len(cur) == p.MaxLen {
+			return
+		}
+		for _, b := range sigma {
+			rec(append(cur, b))
+		}
+	}
+	rec(nil)
+}
